@@ -391,14 +391,15 @@ impl Responder {
             );
             // Rebroadcast the penalty transaction.
             let status = carrier.send_transaction(&tracker.penalty_tx);
-            if let ConfirmationStatus::Rejected(_) = status {
-                rejected.push(uuid);
-            } else {
-                // DISCUSS: What if the tower was down for some time and was later force updated while this penalty got on-chain?
-                // Sending it will yield `ConfirmationStatus::IrrevocablyResolved` which would panic here.
-                // We might want to replace `ConfirmationStatus::IrrevocablyResolved` variant with
-                // `ConfirmationStatus::ConfirmedIn(height - IRREVOCABLY_RESOLVED)
-                dbm.update_tracker_status(uuid, &status).unwrap();
+            match status {
+                ConfirmationStatus::Rejected(_) => rejected.push(uuid),
+                // bitcoind may be ahead of us (two blocks within a polling interval, a backlog after being down) and have the
+                // penalty in a block we have not processed yet. We don't know which one, so, like `handle_reorged_txs` does,
+                // the penalty is kept as unconfirmed until we see it in one of the next connected blocks.
+                ConfirmationStatus::IrrevocablyResolved => dbm
+                    .update_tracker_status(uuid, &ConfirmationStatus::InMempoolSince(height))
+                    .unwrap(),
+                _ => dbm.update_tracker_status(uuid, &status).unwrap(),
             }
         }
 
